@@ -87,6 +87,15 @@ deriving DecidableEq, Repr
 def Fmt.ofNat (f : Nat) : Fmt :=
   { bits8 := f &&& fmt8bit ≠ 0, unsigned := f &&& fmtUnsigned ≠ 0, mono := f &&& fmtMono ≠ 0 }
 
+/-- `libxmp_mixer_get_ticksize` after the floating-point quotient: `calc` is the value of
+`freq * time_factor * rrate / bpm / 1000` truncated towards zero when it is representable
+(`none`: invalid parameter, NaN or above `INT_MAX` → −1); small values are raised to
+`1 << ANTICLICK_SHIFT`. The quotient itself (IEEE doubles) is not modelled. -/
+def ticksizeOf (calc : Option Int) : Int :=
+  match calc with
+  | none => -1
+  | some c => if c < 2 ^ anticlickShift then 2 ^ anticlickShift else c
+
 /-- `libxmp_mixer_prepare`: guard applied to the value of `libxmp_mixer_get_ticksize`
 (which is −1 for invalid parameters). -/
 def prepareTicksize (t : Int) : Nat :=
